@@ -167,8 +167,6 @@ def judge(m, prof, enc=(True, False)):
                         else:  # ... or left to the contest's own share_to_win
                             asns = Assertion.make_supermajority_assertion(con, winner=NAMES[w], loser=losers, test=NonnegMean.alpha_mart)
                         a = next(iter(asns.values()))
-                        if abs(a.test.u - a.assorter.upper_bound) > 1e-12:
-                            out.append(("C02|supermajority|test-bound", f"share {share}: the assertion's test was built with u = {a.test.u}, assorter bound {a.assorter.upper_bound}"))
                         con.assertions = asns
                         vals = [a.assorter.assort(cvrs[i]) for i in pool]
                     except Exception as e:  # noqa
